@@ -2,6 +2,7 @@ package interp
 
 import (
 	"fmt"
+	"net"
 	"go/token"
 	"go/types"
 	"strings"
@@ -430,4 +431,16 @@ func init() {
 
 func init() {
 	externals["runtime/debug.Stack"] = func(fr *frame, a []value) value { return strBytes("goroutine 1 [running]:\nverif\n") }
+}
+
+func init() {
+	// net.IP.String goes through net/netip (package state built with unique / abi tricks):
+	// executed natively for concrete addresses
+	externals["(net.IP).String"] = func(fr *frame, a []value) value {
+		bs, ok := concreteBytes(a[0])
+		if !ok {
+			fr.i.ctx.end("UNSUPPORTED", "net.IP.String of a symbolic address")
+		}
+		return net.IP(bs).String()
+	}
 }
